@@ -133,17 +133,22 @@ fn overlapping_child(fd: i32) -> i32 {
             pths.lock().unwrap().push(unsafe { libc::pthread_self() } as usize);
             let (pid, uid) = (10_000 + t, 20_000 + t as u32);
             // SI_USER, SI_QUEUE, SI_TKILL and a child record: all carry a process
-            let recs = [synth(libc::SIGUSR1, 0, pid, uid), synth(libc::SIGUSR1, -1, pid, uid), synth(libc::SIGUSR1, -6, pid, uid), synth(libc::SIGCHLD, 1, pid, uid)];
+            let kinds = [(libc::SIGUSR1, 0), (libc::SIGUSR1, -1), (libc::SIGHUP, -6), (libc::SIGCHLD, 1), (libc::SIGCHLD, 2), (libc::SIGALRM, 0x80)];
+            let recs: Vec<siginfo_t> = kinds.iter().map(|(sg, code)| synth(*sg, *code, pid, uid)).collect();
+            let want: Vec<(Cause, bool)> = kinds.iter().map(|(sg, code)| table(*sg, *code)).collect();
             let (mut n, mut wrong) = (0u64, Vec::new());
             while !stop.load(Ordering::Relaxed) && n < 200_000_000 {
-                let o = unsafe { Origin::extract(&recs[(n % 4) as usize]) };
+                let i = ((n + t as u64) % kinds.len() as u64) as usize;
+                let o = unsafe { Origin::extract(&recs[i]) };
                 n += 1;
-                match o.process {
-                    Some(p) if p.pid == pid && p.uid == uid => {}
-                    other => {
-                        if wrong.len() < 2 {
-                            wrong.push(format!("thread {} extracted {:?} from a record that holds pid {} uid {}", t, other, pid, uid));
-                        }
+                let proc_ok = match (o.process, want[i].1) {
+                    (Some(p), true) => p.pid == pid && p.uid == uid,
+                    (None, false) => true,
+                    _ => false,
+                };
+                if !proc_ok || o.cause != want[i].0 || o.signal != kinds[i].0 {
+                    if wrong.len() < 2 {
+                        wrong.push(format!("thread {} extracted signal {} cause {:?} process {:?} from a record with si_signo={} si_code={} pid {} uid {} (expected cause {:?})", t, o.signal, o.cause, o.process, kinds[i].0, kinds[i].1, pid, uid, want[i].0));
                     }
                 }
             }
